@@ -51,7 +51,7 @@ class Exec(ExprMixin):
         self.loop_ordinal = 0
         self.call_ordinal = 0
         self.probing = 0
-        self.module_consts: dict[str, SV] = {}
+        self.module_consts: dict[str, SV] = dict(getattr(reg, 'module_consts', {}).get(contract.mod, {}))   # module-level names the contract file declares
         self.h0: H | None = None
         self.args: dict[str, SV] = {}
         self.ghosts: dict = {}
